@@ -65,7 +65,9 @@ impl<R: Read> DefaultProtocolReader<R> {
     fn verify_string_type(&mut self) -> bool {
         if self.ok {
             match self.type_and_value.type_id {
-                FSM_PROTOCOL_TYPE_STRING_LENGTH_4BIT | FSM_PROTOCOL_TYPE_STRING_LENGTH_12BIT => true,
+                FSM_PROTOCOL_TYPE_STRING_LENGTH_4BIT
+                | FSM_PROTOCOL_TYPE_STRING_LENGTH_12BIT
+                | FSM_PROTOCOL_TYPE_STRING_LENGTH_64BIT => true,
                 _ => {
                     self.error(format!("Expected string type, got #{}", self.type_and_value.type_id).as_str());
                     false
@@ -262,6 +264,33 @@ impl<R: Read> DefaultProtocolReader<R> {
                             }
                         }
                     }
+                    FSM_PROTOCOL_TYPE_STRING_LENGTH_64BIT => {
+                        self.type_and_value.type_id = FSM_PROTOCOL_TYPE_STRING_LENGTH_64BIT;
+                        self.type_and_value.number = 0;
+                        self.read_additional_number_bytes(8);
+                        if self.ok {
+                            let us = self.type_and_value.number;
+                            self.type_and_value.number = 0;
+                            // The length is not trusted: nothing is allocated ahead of the bytes that are really there.
+                            let mut bytes = Vec::new();
+                            match (&mut self.reader).take(us).read_to_end(&mut bytes) {
+                                Ok(n) if n as u64 == us => match String::from_utf8(bytes) {
+                                    Ok(val) => {
+                                        self.type_and_value.string = val;
+                                    }
+                                    Err(err_utf) => {
+                                        self.error(format!("Error in utf8 sequence: {}", err_utf).as_str());
+                                    }
+                                },
+                                Ok(_) => {
+                                    self.error("Error reading: unexpected end of string");
+                                }
+                                Err(err) => {
+                                    self.error(format!("Error reading: {}", err).as_str());
+                                }
+                            }
+                        }
+                    }
                     _ => {}
                 },
                 Err(e) => {
@@ -308,9 +337,9 @@ impl<R: Read> ProtocolReader<R> for DefaultProtocolReader<R> {
             self.read_type_and_size();
             return match self.type_and_value.type_id {
                 FSM_PROTOCOL_TYPE_OPT_STRING_NONE => None,
-                FSM_PROTOCOL_TYPE_STRING_LENGTH_12BIT | FSM_PROTOCOL_TYPE_STRING_LENGTH_4BIT => {
-                    Some(self.type_and_value.string.clone())
-                }
+                FSM_PROTOCOL_TYPE_STRING_LENGTH_64BIT
+                | FSM_PROTOCOL_TYPE_STRING_LENGTH_12BIT
+                | FSM_PROTOCOL_TYPE_STRING_LENGTH_4BIT => Some(self.type_and_value.string.clone()),
                 _ => {
                     self.error(format!("Expected string, got {}", self.type_and_value.type_id).as_str());
                     None
